@@ -286,6 +286,22 @@ pub fn run(env: &mut Env) -> RunResult {
     let mut v: Vec<Input> = crate::checks::c04::vectors(crate::model::Fam::V3);
     v.extend(crate::checks::c04::vectors(crate::model::Fam::V5));
     env.run_inputs(SUB_BYTES, &v)?;
+    // encodings of the boundary-size constructions (every length-field boundary, long lists of 255 .. 65,537 entries),
+    // also cut off in the middle and with their last byte missing
+    let lim = env.tier.sel(700_000usize, 40_000_000usize);
+    let mut z: Vec<Input> = crate::sized::encoded_inputs::<V3>(env.thorough(), lim);
+    z.extend(crate::sized::encoded_inputs::<V5>(env.thorough(), lim));
+    let cut: Vec<Input> = z
+        .iter()
+        .filter(|i| i.bytes().len() <= 600_000)
+        .flat_map(|i| {
+            let b = i.bytes();
+            vec![Input::Bytes(b[..b.len() / 2].to_vec()), Input::Bytes(b[..b.len() - 1].to_vec())]
+        })
+        .collect();
+    z.extend(cut);
+    let nz = z.len() as u64;
+    env.run_enum(SUB_BYTES, nz, false, move |i| z[i as usize].clone())?;
     // exhaustive short strings
     let maxlen = env.tier.sel(2usize, 3usize);
     let mut blocks: Vec<Input> = Vec::new();
